@@ -385,8 +385,10 @@ def graph(obj):
 def session_side_knowledge(u, members):
     """reasons why the session knows something about these instances that their own
     pickle cannot carry (the one-step bisimulation is then not meaningful):
-    a collection removal pending in some *other* object's attribute history, or a
-    second instance of the same identity living in the session"""
+    a collection removal pending in some *other* object's attribute history, a
+    second instance of the same identity living in the session, members that were
+    expunged while their graph stayed, or an object outside the pickled graph that
+    refers to a member"""
     from sqlalchemy.orm import attributes
 
     ids = {id(m) for m in members}
@@ -403,6 +405,19 @@ def session_side_knowledge(u, members):
             other = u.s.identity_map.get(k)
             if other is not None and other is not m:
                 return "other-instance-of-identity-in-session"
+    inside = [m in u.s for m in members]
+    if any(inside) and not all(inside):
+        return "mixed-session-membership"  # e.g. a collection member that was expunged explicitly
+    for x in list(u.s):
+        if id(x) in ids:
+            continue
+        st = inspect(x)
+        for r in st.mapper.relationships:
+            if r.key in st.dict:
+                v = st.dict[r.key]
+                for y in (v if isinstance(v, (list, set, tuple)) or hasattr(v, "_sa_adapter") else [v]):
+                    if y is not None and id(y) in ids:
+                        return "referenced-from-outside-the-pickled-graph"
     return None
 
 
